@@ -949,7 +949,7 @@ class Exec:
                      "changed the joint state: %s (registers: %s)" % (what_op, msg, _deep_text(post_deep)), hard=True)
             else:
                 fail("reference", "state:%s:%s" % (k, place), "after %s the joint state differs from the single register: %s "
-                     "(registers: %s)" % (what_op, msg, _deep_text(post_deep)), hard=True)
+                     "(registers: %s)" % (what_op, msg, _deep_text(post_deep)), hard=not self.lenient)
             for (j, c) in self.refused:
                 if j < i and exp != "nil":
                     fail("followup", "after-refusal:%s:state:%s:%s" % (c, k, place),
